@@ -106,7 +106,12 @@ struct producer {
 				if(R(10)==0) off = 200;
 				bv::emit("\"e\":\"Reg\",\"h\":%d,\"p\":%lu,\"kind\":\"timer\"",h,pid_of(eh.get_pointer().get()));
 				reg_count++;
-				int id=srv->set_timer_event(ptime::now()+ptime::milliseconds(off),eh);
+				// EXACTLY equal deadlines (the same time point re-used): timers that share a deadline live under one key of
+				// the loop's timer index - cancelling or firing one of them must not touch the others
+				static thread_local ptime last_point = ptime::now();
+				ptime point = ptime::now()+ptime::milliseconds(off);
+				if(R(2)==0 && off>=0) point = last_point > ptime::now() ? last_point : point; else if(off>0) last_point = point;
+				int id=srv->set_timer_event(point,eh);
 				timers.push_back(std::make_pair(id,h));
 			}
 			else if(c<74) {
@@ -435,7 +440,7 @@ int main(int argc,char **argv)
 	unlink(out); bv::open(out);
 	base_ms=ptime::milliseconds(ptime::now());
 	long seed=vt::envl("VERIF_SEED",1);
-	hstates.resize((size_t)rounds*(producers+1)*nops*(mode=="cancelrace"?40:(mode=="closerace"||mode=="devclose"||mode=="badfd"?3:(mode=="restart"?2:(mode=="burst"?300:1))))+16);
+	hstates.resize((size_t)rounds*(producers+1)*nops*(mode=="cancelrace"?40:(mode=="closerace"||mode=="devclose"||mode=="badfd"?3:(mode=="eqtimers"?6:(mode=="restart"?2:(mode=="burst"?300:1)))))+16);
 	for(int r=0;r<rounds;r++) {
 		srv=new aio::io_service(reactor);
 		ran_count=0; reg_count=0;
@@ -549,6 +554,38 @@ int main(int argc,char **argv)
 			srv->stop();
 			loop.join();
 			for(int i=0;i<nt;i++) delete dts[i].t;
+			keep.clear(); keep2.clear();
+			delete srv; srv=0;
+			continue;
+		}
+		if(mode=="eqtimers") {
+			// groups of 2..5 timers armed for EXACTLY the same time point; one (or two) of them cancelled before expiry,
+			// from this thread while the loop polls: the cancelled ones complete with the cancellation code, every other
+			// timer of the group still fires (not before the deadline)
+			vt::rng R(seed*43+r*5+reactor);
+			usleep(1000);
+			for(int n=0;n<nops;n++) {
+				int g=2+R(4); ptime point=ptime::now()+ptime::milliseconds(8+R(25));
+				std::vector<std::pair<int,int> > ids;
+				for(int i=0;i<g;i++) {
+					int h=next_h++; ev_handler f={h}; aio::event_handler eh(f); keep[0].push_back(eh);
+					bv::emit("\"e\":\"Reg\",\"h\":%d,\"p\":%lu,\"kind\":\"timer\"",h,pid_of(eh.get_pointer().get()));
+					reg_count++;
+					ids.push_back(std::make_pair(srv->set_timer_event(point,eh),h));
+				}
+				int victim=R(g);
+				if(R(3)) usleep(R(3000));
+				if(hstates[ids[victim].second].runs.load()==0) srv->cancel_timer_event(ids[victim].first);
+				if(g>3 && R(2)) { int v2=(victim+1+R(g-1))%g; if(hstates[ids[v2].second].runs.load()==0) srv->cancel_timer_event(ids[v2].first); }
+				bool ok=false;
+				for(int spin=0;spin<30000;spin++) { ok=true; for(int i=0;i<g;i++) if(hstates[ids[i].second].runs.load()==0) ok=false; if(ok) break; usleep(100); }
+				if(!ok) break;
+				progress++;
+			}
+			bv::emit("\"e\":\"Quiesce\",\"reg\":%ld,\"ran\":%ld",reg_count.load(),ran_count.load());
+			if(ran_count.load()<reg_count.load()) { bv::close(); _exit(0); }
+			srv->stop();
+			loop.join();
 			keep.clear(); keep2.clear();
 			delete srv; srv=0;
 			continue;
